@@ -1673,6 +1673,8 @@ class Interp:
                          deps=el.deps if el is not None else frozenset(), born=self.time)
         if result is None:
             result = vconst(None)
+        if role is not None and role[0] == "getter" and not result.has_const():
+            result = result.copy(tags=result.tags | {("getter", role[1])})
         if fn.name not in ("<lambda>",) and role is None:
             result = result.copy(tags=result.tags | {("ret", fn.name)})
             if (bound_self is not None and bound_self.obj is not None and result.sym is None and not result.al
